@@ -270,3 +270,10 @@ def r10_4_calendar_retention(ctx: Ctx) -> RuleResult:
     files = anchor_files("C10")
     check_retention(ctx, rr, lambda f: f.mod.rel in files)
     return rr
+
+
+@rule("C10")
+def r10_3_units(ctx: Ctx) -> RuleResult:
+    from ..dims import units_rule
+
+    return units_rule(ctx, "R10.3", "C10", 60)
